@@ -33,5 +33,33 @@ CHECKS = {
                 "trusted base: CPython list, the 60-line reference model in props/c05_list.py",
     },
 }
+CHECKS["C06"] = {
+    "category": "model_checking",
+    "technique": MC + " (all states x all operations, lock-step with built-in dict, delta reconstruction law)",
+    "text": "Every ordered dict state over a 3-key alphabet (two keys colliding under coercion) x every "
+            "mutator with every key/value/argument shape (mapping, pairs, iterator, TraitDict, duplicates, "
+            "malformed arguments) runs on the real TraitDict (custom validators) and on a Dict(CInt,Str) trait "
+            "value carrying an _items handler, an observe('d.items') handler and a raw notifier placed after "
+            "the observer; contents, order, return value, exception class, failure atomicity, the "
+            "added/changed/removed reconstruction law and the documented DictChangeEvent merge are checked; "
+            "depth-2 sequences validate the one-step argument.",
+    "note": "bounded: 3 keys x 2 values, update arguments of size <=2 (quick) / <=3 (thorough); kwargs form of "
+            "update excluded (not supported by TraitDict's signature); trusted base: CPython dict, reference "
+            "model in props/c06_dict.py",
+}
+CHECKS["C07"] = {
+    "category": "model_checking",
+    "technique": MC + " (all states x all operations, lock-step with built-in set, delta law, copy liveness)",
+    "text": "Every subset state x all 14 mutators x every argument subset in set/frozenset/list/iterator form "
+            "(plus non-iterable, unhashable and failing-second-argument probes) on the real TraitSet and on a "
+            "Set(CInt) trait value with _items, observe and raw notifiers; lock-step with built-in set (both "
+            "the validated-membership and raw-membership readings accepted), failure atomicity, exactly-one "
+            "event with removed subset / added disjoint / reconstruction; in every state every copy operation "
+            "(copy, deepcopy, pickle 0-5) must give an equal, independent set that still rejects invalid and "
+            "converts convertible items.",
+    "note": "bounded: 3-4 item states, 4-5 item argument alphabet; standalone copy.copy/pickle of a "
+            "TraitSetObject detached from its owner is out of scope (owner-level copies are checked, and C14 "
+            "covers them in depth); trusted base: CPython set, reference model in props/c07_set.py",
+}
 
 NOT_CLAIMED = {}
